@@ -22,7 +22,7 @@ class No(Exception):
 
 def _engine(F, visits, extra_inline=None):
     def pol(fn, ev):
-        if fn.argc == 0:
+        if sym.inline_consts(fn, ev):
             return True
         if extra_inline and extra_inline(fn, ev):
             return True
